@@ -268,30 +268,27 @@ def resOf : Option Err → Res
 def doPromote (d : Disk) (x : Handle) : Out :=
   if promoteRefused x.cfg.submitter then (d, x, .bool false)
   else
-    let x1 := { x with cfg := { x.cfg with submitter := some x.host } }
-    match serializeCfg d x1 with
-    | (d', x', none) => (d', x', .bool true)
-    | (d', x', some e) => (d', x', .err e)
+    let r := serializeCfg d { x with cfg := { x.cfg with submitter := some x.host } }
+    (r.1, r.2.1, match r.2.2 with | none => .bool true | some e => .err e)
 
 /-- `_demote_from_submitter` -/
 def doDemote (d : Disk) (x : Handle) : Out :=
   if demoteAssert x.cfg.submitter x.host then
-    let x1 := { x with cfg := { x.cfg with submitter := none } }
-    match serializeCfg d x1 with
-    | (d', x', e) => (d', x', resOf e)
+    let r := serializeCfg d { x with cfg := { x.cfg with submitter := none } }
+    (r.1, r.2.1, resOf r.2.2)
   else (d, x, .err .assertion)
 
 /-- `_mark_complete` -/
 def doMarkComplete (d : Disk) (x : Handle) : Out :=
   if markCompleteAssert x.cfg.isComplete then
-    match serializeCfg d { x with cfg := { x.cfg with isComplete := true } } with
-    | (d', x', e) => (d', x', resOf e)
+    let r := serializeCfg d { x with cfg := { x.cfg with isComplete := true } }
+    (r.1, r.2.1, resOf r.2.2)
   else (d, x, .err .assertion)
 
 /-- `_mark_canceled` -/
 def doMarkCanceled (d : Disk) (x : Handle) : Out :=
-  match serializeCfg d { x with cfg := { x.cfg with isCanceled := true } } with
-  | (d', x', e) => (d', x', resOf e)
+  let r := serializeCfg d { x with cfg := { x.cfg with isCanceled := true } }
+  (r.1, r.2.1, resOf r.2.2)
 
 /-- `_deserialize_jobs` -/
 def doDeserializeJobs (d : Disk) (x : Handle) : Out :=
@@ -304,8 +301,8 @@ def doCompleteHpcId (id : Nat) (d : Disk) (x : Handle) : Out :=
   | some j =>
     if j.hpcIds.contains id then
       let j1 := { j with hpcIds := j.hpcIds.erase id }
-      match serializeJs d { x with js := some j1 } j1 with
-      | (d', x', e) => (d', x', resOf e)
+      let r := serializeJs d { x with js := some j1 } j1
+      (r.1, r.2.1, resOf r.2.2)
     else (d, x, .err .valueError)
 
 /-- `_check_versions` -/
@@ -315,6 +312,15 @@ def checkVersions (d : Disk) (x : Handle) : Option Res :=
     | none => some .attrErr
     | some j => if checkJsMismatch j.version d.jsVer then some (.err .versionMismatch) else none
 
+/-- `_serialize` then `_serialize_jobs` (the second only if the first did not raise) -/
+def serializeBoth (d : Disk) (x : Handle) (j : JsView) : Out :=
+  let r1 := serializeCfg d x
+  match r1.2.2 with
+  | some e => (r1.1, r1.2.1, .err e)
+  | none =>
+    let r2 := serializeJs r1.1 r1.2.1 j
+    (r2.1, r2.2.1, resOf r2.2.2)
+
 /-- `_update_job_status` -/
 def doUpdate (a : UpdateArgs) (d : Disk) (x : Handle) : Out :=
   match checkVersions d x with
@@ -323,14 +329,10 @@ def doUpdate (a : UpdateArgs) (d : Disk) (x : Handle) : Out :=
     match x.js with
     | none => (d, x, .attrErr)
     | some j =>
-      match applyUpdate a { cfg := x.cfg, js := j } with
-      | (m, some e) => (d, { x with cfg := m.cfg, js := some m.js }, .err e)
-      | (m, none) =>
-        match serializeCfg d { x with cfg := m.cfg, js := some m.js } with
-        | (d1, x1, some e) => (d1, x1, .err e)
-        | (d1, x1, none) =>
-          match serializeJs d1 x1 m.js with
-          | (d2, x2, e) => (d2, x2, resOf e)
+      let u := applyUpdate a { cfg := x.cfg, js := j }
+      match u.2 with
+      | some e => (d, { x with cfg := u.1.cfg, js := some u.1.js }, .err e)
+      | none => serializeBoth d { x with cfg := u.1.cfg, js := some u.1.js } u.1.js
 
 /-- the loop of `_are_all_jobs_complete` -/
 def allCompleteLoop (c : CfgView) : List JobView → Res
@@ -358,35 +360,37 @@ def resubmitLoop (sel : List JobId) (blockers : List (JobId × List JobId)) :
       let r := resubmitLoop sel blockers (i + 1) vs (if resubmitCounts v.state then resubmitCompletedInc c else c)
       (v :: r.1, r.2)
 
+/-- the in-memory config after the assignments and the recount of `prepare_for_resubmission` -/
+def resubmitCfg (c : CfgView) (sel : List JobId) (completed : Nat) : CfgView :=
+  { c with isComplete := resubmitIsComplete, isCanceled := resubmitIsCanceled,
+           submitted := (resubmitSubmitted c.numJobs sel).toNat, completed := completed }
+
 /-- `prepare_for_resubmission` (no lock) -/
 def doPrepareResubmit (sel : List JobId) (blockers : List (JobId × List JobId)) (d : Disk) (x : Handle) : Out :=
   if resubmitAssert x.cfg.isComplete then
-    let c1 := { x.cfg with isComplete := resubmitIsComplete, isCanceled := resubmitIsCanceled,
-                           submitted := (resubmitSubmitted x.cfg.numJobs sel).toNat,
-                           completed := resubmitCompletedInit }
     match x.js with
-    | none => (d, { x with cfg := c1 }, .err .assertion)
+    | none => (d, { x with cfg := resubmitCfg x.cfg sel resubmitCompletedInit }, .err .assertion)
     | some j =>
-      let r := resubmitLoop sel blockers 0 j.jobs c1.completed
+      let r := resubmitLoop sel blockers 0 j.jobs resubmitCompletedInit
       let j1 := { j with jobs := r.1 }
-      let x1 := { x with cfg := { c1 with completed := r.2 }, js := some j1 }
-      match serializeCfg d x1 with
-      | (d1, x2, some e) => (d1, x2, .err e)
-      | (d1, x2, none) =>
-        match serializeJs d1 x2 j1 with
-        | (d2, x3, e) => (d2, x3, resOf e)
+      serializeBoth d { x with cfg := resubmitCfg x.cfg sel r.2, js := some j1 } j1
   else (d, x, .err .assertion)
+
+/-- a freshly constructed handle -/
+def newHandle (host : Host) (d : Disk) : Handle :=
+  { host := host, cfg := d.cfg, js := none, cfgHash := initialHash, jsHash := initialHash }
+
+/-- optional `_deserialize_jobs` of a fresh handle -/
+def withJobs (jobs : Bool) (d : Disk) (x : Handle) : Handle :=
+  if jobs then { x with js := some d.js } else x
 
 /-- `_deserialize` -/
 def doLoad (host : Host) (promote jobs : Bool) (d : Disk) : Disk × Option Handle × Res :=
   if d.cfgMissing then (d, none, .err .invalidConfig)
   else
-    let x0 : Handle := { host := host, cfg := d.cfg, js := none, cfgHash := initialHash, jsHash := initialHash }
-    let (d1, x1, r) := if promote then doPromote d x0 else (d, x0, .bool false)
-    if r.isExc then (d1, none, r)
-    else
-      let x2 := if jobs then { x1 with js := some d1.js } else x1
-      (d1, some x2, r)
+    let o : Out := if promote then doPromote d (newHandle host d) else (d, newHandle host d, .bool false)
+    if o.2.2.isExc then (o.1, none, o.2.2)
+    else (o.1, some (withJobs jobs o.1 o.2.1), o.2.2)
 
 /-! ### the lock wrapper and the transition function -/
 
@@ -400,16 +404,16 @@ def locked (s : Sys) (h : Hid) (f : Disk → Handle → Out) : Sys × Res :=
   | some x =>
     if s.disk.marker then (s, .err .lockTimeout)
     else
-      match f s.disk x with
-      | (d, x', r) => (({ s with disk := { d with marker := markerAfter r } }).setHandle h x', r)
+      let o := f s.disk x
+      (({ s with disk := { o.1 with marker := markerAfter o.2.2 } }).setHandle h o.2.1, o.2.2)
 
 /-- a method of an existing handle that takes no lock -/
 def unlocked (s : Sys) (h : Hid) (f : Disk → Handle → Out) : Sys × Res :=
   match s.handles h with
   | none => (s, .noHandle)
   | some x =>
-    match f s.disk x with
-    | (d, x', r) => (({ s with disk := d }).setHandle h x', r)
+    let o := f s.disk x
+    (({ s with disk := o.1 }).setHandle h o.2.1, o.2.2)
 
 /-- in-memory mutation of one job of the handle's job status -/
 def memJob (s : Sys) (h : Hid) (j : JobId) (f : JobView → JobView) : Sys × Res :=
@@ -427,12 +431,11 @@ def memJob (s : Sys) (h : Hid) (j : JobId) (f : JobView → JobView) : Sys × Re
 def loadOp (s : Sys) (slot : Option Hid) (host : Host) (promote jobs : Bool) : Sys × Res :=
   if s.disk.marker then (s, .err .lockTimeout)
   else
-    match doLoad host promote jobs s.disk with
-    | (d, ox, r) =>
-      let s1 : Sys := { s with disk := { d with marker := markerAfter r } }
-      match slot, ox with
-      | some h, some x => (s1.setHandle h x, r)
-      | _, _ => (s1, r)
+    let o := doLoad host promote jobs s.disk
+    let s1 : Sys := { s with disk := { o.1 with marker := markerAfter o.2.2 } }
+    match slot, o.2.1 with
+    | some h, some x => (s1.setHandle h x, o.2.2)
+    | _, _ => (s1, o.2.2)
 
 def step (s : Sys) : Op → Sys × Res
   | .load h host p j => loadOp s (some h) host p j
@@ -484,9 +487,9 @@ def create (host : Host) (spec : List (List JobId × Bool)) (breakStale : Bool) 
   let j0 : JsView := { jobs := createJobs spec, hpcIds := [], batchIdx := defaultBatchIndex, version := createJsVersion }
   let x0 : Handle := { host := host, cfg := c0, js := some j0, cfgHash := initialHash, jsHash := initialHash }
   let d0 : Disk := { cfg := c0, cfgMissing := true, cfgVer := c0.version, js := j0, jsVer := j0.version, marker := false }
-  let (d1, x1, _) := serializeCfg d0 x0
-  let (d2, x2, _) := serializeJs d1 x1 j0
-  { disk := d2, handles := fun q => if q = 0 then some x2 else none, breakStale := breakStale }
+  let r1 := serializeCfg d0 x0
+  let r2 := serializeJs r1.1 r1.2.1 j0
+  { disk := r2.1, handles := fun q => if q = 0 then some r2.2.1 else none, breakStale := breakStale }
 
 /-! ### reading the status (`jade show-status`) -/
 
@@ -506,5 +509,56 @@ def readStatus (d : Disk) : Except Err Summary :=
   else .ok { isComplete := d.cfg.isComplete, isCanceled := d.cfg.isCanceled, numJobs := d.cfg.numJobs,
              completed := d.cfg.completed, notSubmitted := notSubmittedCount d.cfg.numJobs d.cfg.submitted,
              jobs := d.js.jobs }
+
+/-! ### ghost state: who believes to hold the submitter role, and the role protocol -/
+
+/-- a system together with the set of *holders*: handles that got `True` from a promotion (or created the
+    submission) and have not successfully demoted since -/
+structure Tracked where
+  s : Sys
+  holder : Hid → Bool
+
+def holdersAfter (hs : Hid → Bool) : Op → Res → Hid → Bool
+  | .load h _ _ _, .bool true => fun q => if q = h then true else hs q
+  | .promote h, .bool true => fun q => if q = h then true else hs q
+  | .demote h, .ok => fun q => if q = h then false else hs q
+  | _, _ => hs
+
+def Tracked.step (t : Tracked) (op : Op) : Tracked :=
+  { s := (Jade.Cluster.step t.s op).1, holder := holdersAfter t.holder op (Jade.Cluster.step t.s op).2 }
+
+def Tracked.exec (t : Tracked) (ops : List Op) : Tracked := ops.foldl Tracked.step t
+
+/-- `Cluster.create`: the creator (slot 0) holds the role -/
+def Tracked.create (host : Host) (spec : List (List JobId × Bool)) (breakStale : Bool) : Tracked :=
+  { s := Jade.Cluster.create host spec breakStale, holder := fun q => q == 0 }
+
+/-- The role protocol, for one operation in a given state: the operations that write cluster state are invoked only
+    by a current holder; a holder's handle is not thrown away by re-loading into its slot; nobody tampers with the
+    files behind the API's back.  (Every JADE call site has this shape: promote → work → demote.) -/
+def Protocol (t : Tracked) : Op → Bool
+  | .demote h => t.holder h
+  | .update h _ => t.holder h
+  | .markComplete h => t.holder h
+  | .markCanceled h => t.holder h
+  | .completeHpcId h _ => t.holder h
+  | .prepareResubmit h _ _ => t.holder h
+  | .load h _ _ _ => !t.holder h
+  | .forgeCfgVer _ => false
+  | .forgeJsVer _ => false
+  | .rmCfg => false
+  | _ => true
+
+/-- every operation of the run respects the protocol in the state in which it is invoked -/
+def ProtocolRun (t : Tracked) : List Op → Bool
+  | [] => true
+  | op :: ops => Protocol t op && ProtocolRun (t.step op) ops
+
+/-- operations of the environment that bypass the API -/
+def Op.isTamper : Op → Bool
+  | .forgeCfgVer _ => true
+  | .forgeJsVer _ => true
+  | .rmCfg => true
+  | _ => false
 
 end Jade.Cluster
